@@ -26,7 +26,7 @@ ASSUMPTIONS = [
     "are not compared",
     "exponents are small integers (at most two ** per expression) so that even a mis-grouped tower stays bounded",
 ]
-MIN_MONITORS = {"value": 30000, "print-text": 30000, "redundant-parens": 12000, "expected-error": 3000, "in-type-position": 1500}
+MIN_MONITORS = {"value": 30000, "print-text": 30000, "redundant-parens": 12000, "expected-error": 2500, "in-type-position": 900}
 THOROUGH_MIN_SCALE = 8
 
 
